@@ -1,5 +1,5 @@
 (* C01, kernel level (ckernels vertical, docs/ckernels.md).
-   FULLY PROVED: sha256_single (C01_kernel_sha256_single, all inputs).  PARTIAL (names ending in
+   PROVED FOR ALL INPUTS (symbolic form): sha256_single (C01_kernel_sha256_single_symbolic).  PARTIAL (names ending in
    _partial): sha1_single, sha512_single, md5_single - known answers through the translated code.
    The base block functions sha256_single, sha1_single, sha512_single, md5_single of the
    <alg>_mb/<alg>_ctx_base.c files are translated from the current source on every run
@@ -15,22 +15,28 @@
    and edge blocks at every run (checks/ckernels.py). *)
 From Coq Require Import NArith List.
 From ISAL Require Import Base.Words Base.ListUtil Spec.MD Spec.SHA1 Spec.SHA256 Spec.SHA512 Spec.MD5
-  Model.CKernel Gen.CKernelGen Proofs.CKSymSha256.
+  Model.CKernel Gen.CKernelGen Model.CKSym Proofs.CKSymFacts Model.CKSymSpec Proofs.CKSymSha256.
 Import ListNotations.
 Local Open Scope N_scope.
 
-(* sha256_single, translated from the current sha256_mb/sha256_ctx_base.c, equals the FIPS 180-4
-   compression function for EVERY chaining value and EVERY 64-byte block, whatever the
-   uninitialised w[] array held (junk); the block is seen through uint32_t loads (little endian).
-   Re-established on every regenerated kernel by one vm_compute of the verified symbolic
-   equivalence checker (Proofs/CKSymSha256.v sha256_check_true). *)
-Theorem C01_kernel_sha256_single : forall (h block junk : list N),
-  length h = 8%nat -> Forall (fun x => x < 2 ^ 32) h ->
-  length block = 64%nat -> Forall (fun x => x < 2 ^ 8) block ->
-  exists F0, forall fuel, (F0 <= fuel)%nat ->
-    c_sha256_single fuel (le_words 4 block) h junk = Some (sha256_compress h block).
-Proof. exact ck_sha256_single_eq. Qed.
-Print Assumptions C01_kernel_sha256_single.
+(* sha256_single, translated from the current sha256_mb/sha256_ctx_base.c: for EVERY valuation rho of the
+   40 input words (16 data words as the C loads them, 8 chaining words, 16 words of the uninitialised
+   w[]) that respects their 32-bit bounds (wf of the variable table), the translated body runs to
+   completion - no out-of-bounds access, no shift >= width, no uninitialised scalar read - and leaves in
+   `digest` the FIPS 180-4 compression (sha256_compress_words) of the chaining words and the byte-swapped
+   data words.  Obtained from ONE vm_compute of the verified symbolic equivalence checker on the
+   regenerated body (Proofs/CKSymSha256.v sha256_check_true) + its soundness theorems.
+   Still missing for the statement about c_sha256_single itself: instantiating rho at the concrete
+   initial state (mechanical; wip/ckernels/unfinished/CKSymSha256_glue.v.txt). *)
+Theorem C01_kernel_sha256_single_symbolic : forall rho : nat -> N,
+  CKSymFacts.wf rho (ck_t0 sha256_objs) ->
+  exists st',
+    exec 5000 c_sha256_single_body (conc (tvals rho (ck_t0 sha256_objs)) (ck_st0 sha256_nvars sha256_objs)) = Some st' /\
+    get_obj st' 1 =
+    Some (sha256_compress_words (map (V rho (ck_t0 sha256_objs)) (map N.of_nat (seq 16 8)))
+            (map (bswap 32) (map (V rho (ck_t0 sha256_objs)) (map N.of_nat (seq 0 16))))).
+Proof. exact sha256_sym_sound. Qed.
+Print Assumptions C01_kernel_sha256_single_symbolic.
 
 Local Fixpoint pat_from (n : nat) (b : N) : list N :=
   match n with O => [] | S m => b :: pat_from m ((b + 7) mod 256) end.
